@@ -133,6 +133,23 @@ def check(ctx, text, with_comments, origin):
              sample={'origin': origin, 'with_comments': with_comments, 'text': text[:140], 'nodes_walked': nn}
              if (nn >= 5 and ctx.rng.random() < 0.002) else None)
     viol = audit(tree, walked, walked2, label)
+    # every public way of walking gives the same sequence: the module-level walk(), and Walker.walk with
+    # its optional second argument (documented as ignored) given
+    from calmjs.parse import walkers
+    ids = [id(n) for n in walked]
+    alt = [('walkers.walk(tree)', lambda: walkers.walk(tree)),
+           ('Walker().walk(tree, <constant false>)', lambda: w.walk(tree, lambda n: False)),
+           ('Walker().walk(tree, condition=<is Identifier>)',
+            lambda: w.walk(tree, condition=lambda n: vtree.kind_of(n) == 'Identifier'))]
+    for name, call in alt:
+        try:
+            got = [id(n) for n in call()]
+        except Exception as e:
+            got = 'raised %s: %s' % (type(e).__name__, e)
+        ctx.hit('walk_variants')
+        if got != ids:
+            viol.append(('C16:walk_variant_differs', '%s yielded %s, Walker().walk(tree) %d nodes (%s)' % (
+                name, ('%d nodes' % len(got)) if isinstance(got, list) else got, len(ids), label)))
     for name, pred in predicates(ctx.rng, kinds):
         f = list(w.filter(tree, pred))
         ctx.hit('filter')
